@@ -150,7 +150,7 @@ func (ch c19) Run(c *core.Ctx) {
 			continue
 		}
 		env := ch.server(cfg)
-		for e, ending := range []string{"terminate", "eof", "terminate-pipelined"} {
+		for e, ending := range []string{"terminate", "eof", "terminate-pipelined", "terminate-while-skipping"} {
 			for hi := 0; hi < hist; hi++ {
 				idx++
 				if !c.Begin(ci*10000+e*1000+hi) || c.NViol() >= 10 {
@@ -291,15 +291,21 @@ func (ch c19) runConn(c *core.Ctx, env *hs.Env, cfg c19cfg, ending string, rng *
 		cl.C.Send(pg.Terminate())
 	case "terminate-pipelined":
 		cl.C.Send(append(pg.Query("ok"), pg.Terminate()...))
+	case "terminate-while-skipping":
+		// a failed extended message leaves the session discarding until Sync; Terminate must still work
+		cl.C.Send(append(append(pg.Parse("", "fail", nil), pg.Bind("", "", nil, nil, nil)...), pg.Terminate()...))
 	case "eof":
 		cl.C.CloseWrite()
 		c.Count("eof_endings", 1)
 	}
-	if ok := cl.C.WaitClosed(); !ok {
+	if closed, ok := cl.C.Quiesce(); !ok {
 		cl.Hung = true
 		if !hangCheck(c, cl, cs) {
 			viol("not-closed", "connection not closed after "+ending, "")
 		}
+		return
+	} else if !closed {
+		viol("not-closed", "connection not closed after "+ending, fmt.Sprintf("the server is waiting for more input; terminate hook ran %d time(s)", st.term.Load()))
 		return
 	}
 	if !checkCancelled(len(st.ctxs), "at connection end") {
